@@ -53,7 +53,11 @@ func (r Rule) Text() string {
 		fmt.Fprintf(&b, " %q", r.Desc)
 	}
 	if !r.NoSal {
-		fmt.Fprintf(&b, " %s %d", kw("salience"), r.Salience)
+		if r.Salience > 0 && r.Version%5 == 0 {
+			fmt.Fprintf(&b, " %s 00%d", kw("salience"), r.Salience) // leading zeros: still a decimal number
+		} else {
+			fmt.Fprintf(&b, " %s %d", kw("salience"), r.Salience)
+		}
 	}
 	fmt.Fprintf(&b, " %s tr(%d) %s %d %s", kw("begin"), r.Version, kw("return"), r.Version, kw("end"))
 	return b.String()
